@@ -19,9 +19,9 @@ var verifMoveOnNewNode bool
 
 // VerifSetTreeMoveOnNewNode makes every fresh page allocation of an in-memory
 // Tree move the backing buffer to new memory (what Buffer.Grow legitimately
-// does whenever the capacity is exceeded) and poison the old memory, so that a
-// node reference held across newNode is exposed at once instead of only at the
-// rare capacity crossings.
+// does whenever the capacity is exceeded), so that a write through a node
+// reference held across newNode is lost at once instead of only at the rare
+// capacity crossings.
 func VerifSetTreeMoveOnNewNode(on bool) { verifMoveOnNewNode = on }
 
 func verifTreeNewNode(t *Tree) {
@@ -33,8 +33,7 @@ func verifTreeNewNode(t *Tree) {
 	copy(nb, old)
 	t.buffer.buf = nb
 	t.data = t.buffer.Bytes()
-	for i := range old {
-		old[i] = 0xAB
-	}
+	// The old memory is left as it is (exactly what Grow does in builds without
+	// jemalloc): stale reads see the old contents, stale writes are lost.
 	Free(old)
 }
